@@ -48,7 +48,7 @@ func c13Value(r *core.Rng, next func() any) c13Val {
 
 func c13Tier(tier string) int {
 	if tier == "thorough" {
-		return 1000000
+		return 10000000
 	}
 	return 200000
 }
